@@ -345,6 +345,11 @@ func keysSection(x *h.X) {
 		x.Fail("construct", "%s rep %d: %v", src.name, rep, err)
 		return
 	}
+	keyLevelCases(x, src, priv, pub, desc)
+}
+
+// keyLevelCases: parse / serialize and every byte-taking constructor of the objects reachable from the key(s).
+func keyLevelCases(x *h.X, src *source, priv, pub *protoKey, desc string) {
 	seen := map[string]bool{}
 	for i, pk := range []*protoKey{priv, pub} {
 		if pk == nil {
